@@ -4,7 +4,7 @@ from ..evidence import Report
 
 
 def lib_run(pid, tier, name, src, variants, bounds, expected_configs_per_variant, samples, assumptions,
-            replay=None, level="model_checking", extra_stats=None, includes=(), rep=None, finish=True):
+            replay=None, level="model_checking", extra_stats=None, rule=None, includes=(), rep=None, finish=True):
     rep = rep or Report(pid, tier, level)
     if replay:
         variants = [v for v in variants if v.tag == replay["case"].get("variant")] or variants
@@ -19,7 +19,7 @@ def lib_run(pid, tier, name, src, variants, bounds, expected_configs_per_variant
         nconf = 0
         for l in lines:
             if l[0] == "COMPILE-ERROR":
-                rep.violation("explorer-compile-error:" + cxx.cell_name(v.cell),
+                rep.violation(v.compile_sig or ("explorer-compile-error:" + cxx.cell_name(v.cell)),
                               {"variant": v.tag, "msg": "explorer does not compile against the tree: " + l[1][-1200:]})
             elif l[0] == "RUN-ERROR":
                 rep.harness_error("%s: %s" % (v.tag, l[1:]))
@@ -57,6 +57,8 @@ def lib_run(pid, tier, name, src, variants, bounds, expected_configs_per_variant
             rep.set(k, val)
     if level != "model_checking":
         rep.set("evaluations", totals.get("transitions", 0))
+        rep.set("distinct_nontrivial", totals.get("states", 0))
+        rep.set("rule", rule or "complete enumeration of the stated product; distinct = distinct (type, value) states")
     for a in assumptions:
         rep.assume(a)
     if totals.get("transitions", 0) == 0 and not rep.violations:
